@@ -4,6 +4,7 @@ import (
 	"os"
 	"strconv"
 
+	"github.com/WuKongIM/WuKongIM/pkg/zzverif/mc"
 	"github.com/WuKongIM/WuKongIM/pkg/zzverif/ev"
 )
 
@@ -65,4 +66,13 @@ func vwDebugBounds(depth, devs int) (int, int) {
 		devs = v
 	}
 	return depth, devs
+}
+
+// vwRun explores one (depth, deviations) box of the world.
+func vwRun(r *ev.R, name string, o vwOpts, st *vwStats, depth, devs int, note string) mc.Result {
+	depth, devs = vwDebugBounds(depth, devs)
+	return mc.Run(r, mc.System{
+		Name: name, New: func() mc.Instance { return newVW(o, st) },
+		MaxDepth: depth, MaxDeviations: devs, Bounds: vwBounds(o), Note: note,
+	})
 }
